@@ -34,6 +34,15 @@ For every response:
       _indent / str.isspace / date ordinals — implementation vs model on >= 20 000 values incl.
       malformed strings; the round-trip laws and ISO 8601 duration semantics are evaluated on the
       implementation's own answers.
+  (h) ENVIRONMENT INDEPENDENCE, every run: the emitted text is a function of the response, not of the time zone of the
+      PROCESS.  Responses whose bundle / signature times start at every instant of harness/tzenv.lattice() (January /
+      July, turn of the year, leap day, -1 h .. +1 h around the 2025 DST switches of every zone; 1..3 bundles, real and
+      arbitrary signatures, datetimes carrying UTC and non-UTC tzinfo) plus a slice of the ordinary, shared-tag and
+      real-signature responses go through (a)-(d) under UTC and AGAIN with the process zone switched (lib.ProcessTZ: TZ +
+      tzset) to America/New_York, Australia/Lord_Howe, Asia/Kolkata and Europe/Berlin: same model text, same read-back,
+      validate_response, standards parser — and the text must equal the UTC run's.  The timestamp codecs
+      (format_datetime on aware datetimes in three tzinfos, parse_datetime on `+00:00` / `Z` / no designator / malformed
+      strings) run on the lattice under every zone against the model and integer calendar arithmetic.
 impl violates the spec -> VIOLATION (failing input);  impl != model, spec holds -> disagreement.
 """
 
@@ -47,6 +56,7 @@ from pathlib import Path
 from typing import Any, Iterable
 
 import lib
+import tzenv
 from lib import REPO, Result, response_j, run_driver, run_impl, same_outcome, td_us, dt_us, us_dt, us_td
 
 DRIVER = "kskm_driver_pkge"
@@ -87,6 +97,7 @@ ASSUMPTIONS = [
     "xml.etree.ElementTree (expat) is the standards XML parser",
     "the RELAX NG compact subset interpreter in this module reads schema/ksr.rnc faithfully (subset: element/attribute/ref/group/choice/?/*/+/empty/xsd datatypes with min/maxInclusive)",
     "the signer emits bundles in the loader's order (expiration, inception, id): request bundles are sorted that way on load and sign_bundles keeps their order",
+    "the process time zone is switched with TZ + tzset (lib.ProcessTZ, which verifies that localtime follows); zones and DST switch instants from the system tz database, cross-checked against the published 2025 rules in harness/tzenv.py",
     "writer domain (in_domain below): no timestamp, RSA policies with >= 1 entry, >= 1 bundle/key/signature, attribute values and element texts free of \" < > & and control characters, texts stripped, years 1000..9999, durations whole seconds 0..400 d, unsigned fields in their schema ranges",
 ]
 TRUSTED = ["xml.etree.ElementTree as XML oracle and the RNC-subset interpreter in corr_C11"]
@@ -802,8 +813,9 @@ def response_from_j(j: dict[str, Any]) -> Any:
     return Response(id=j["id"], serial=j["serial"], domain=j["domain"], timestamp=None if j["timestamp"] is None else us_dt(j["timestamp"]), bundles=bundles, ksk_policy=pol(j["kskPolicy"]), zsk_policy=pol(j["zskPolicy"]))
 
 
-def judge_response(res: Result, tag: str, resp: Any, model_text: Any, model_tree: Any, *, real: bool, sample: bool = False) -> tuple[Any, Any]:
-    """Property clauses (b)(c)(d) on the implementation + tie (a) for one response."""
+def judge_response(res: Result, tag: str, resp: Any, model_text: Any, model_tree: Any, *, real: bool, sample: bool = False, zone: str | None = None) -> tuple[Any, Any]:
+    """Property clauses (b)(c)(d) on the implementation + tie (a) for one response.  `zone`: the name of the time zone the
+    PROCESS is in while this runs (the caller switched it; recorded in the case so that --replay switches too)."""
     from kskm.common.config_misc import ResponsePolicy
     from kskm.skr.load import response_from_xml
     from kskm.skr.output import skr_to_xml
@@ -812,6 +824,8 @@ def judge_response(res: Result, tag: str, resp: Any, model_text: Any, model_tree
     dom, why = in_domain(resp)
     n = len(resp.bundles)
     case = {"tag": tag, "n_bundles": n, "real_signatures": real, "in_domain": dom, **describe(resp)}
+    if zone is not None:
+        case["process_time_zone"] = zone
     res.count({"tag": tag, "r": case["response"]})
     res.bump(f"bundles:{n}")
     res.bump("domain:in" if dom else f"domain:out:{why}")
@@ -1220,6 +1234,62 @@ def codecs(res: Result, tier: str, driver_ok: bool) -> None:
             res.disagreement(f"codec {kind}: model != implementation", {"kind": kind, "input": _clip(inp, 300)}, _clip(impl, 300), _clip(mm, 300))
 
 
+def codecs_tz(res: Result, tier: str, driver_ok: bool) -> None:
+    """(h) the timestamp codecs under every process zone: format_datetime of aware datetimes (the instant in three
+    tzinfos) and parse_datetime of its spellings, on the DST lattice +-1 us, plus a sample of malformed strings; judged by
+    integer calendar arithmetic (tzenv.iso_utc), tied to the model, compared with the UTC run."""
+    from kskm.common.parse_utils import parse_datetime
+    from kskm.skr.output import format_datetime
+
+    r = lib.rng("C11:codecs:tz")
+    tzinfos = [timezone.utc, timezone(timedelta(hours=2)), timezone(timedelta(hours=-11, minutes=-30))]
+    insts: list[int] = []
+    for _label, s in tzenv.lattice():
+        insts += [s * SEC, s * SEC - 1, s * SEC + 1]
+    texts: list[tuple[str, int | None]] = []
+    for _label, s in tzenv.lattice():
+        for form in ("+00:00", "Z", "", "ZZ", ".000000+00:00"):
+            texts.append((tzenv.iso_utc(s) + form, s * SEC))
+        texts.append((tzenv.iso_offset(s, 120), None))  # not UTC: refused whatever the zone
+        texts.append((tzenv.iso_utc(s).replace("T", " "), s * SEC))
+    texts += [(t, None) for t in gen_datetime_strings(r, 1200 if tier == "thorough" else 400)]
+    lines = [{"op": "format_datetime", "us": us} for us in insts] + [{"op": "parse_datetime", "text": t} for t, _ in texts]
+    model = run_driver(lines, exe=DRIVER) if driver_ok else [None] * len(lines)
+    utc_obs: list[Any] = []
+    for z in tzenv.all_zones():
+        with tzenv.zone(z) as zname:
+            obs = []
+            for us in insts:
+                obs.append([run_impl(lambda: format_datetime(us_dt(us).astimezone(tzi)), conv=lambda x: x) for tzi in tzinfos])
+            for t, _want in texts:
+                obs.append(run_impl(lambda: parse_datetime(t), conv=dt_us))
+        if zname == "UTC":
+            utc_obs = obs
+        for k, us in enumerate(insts):
+            case = {"kind": "format_datetime", "us": us, "process_time_zone": zname}
+            res.count({"codec": "format_datetime:tz", "in": us, "zone": zname})
+            res.bump("codec:tz:format_datetime")
+            want = {"ok": tzenv.iso_utc(us // SEC) + "+00:00"}
+            for tzi, got in zip(tzinfos, obs[k]):
+                if got != want:
+                    res.violation("timestamp codec: the text written is not the instant given (UTC, whole seconds, fraction dropped)", {**case, "tzinfo": str(tzi)}, key="tz:format_datetime", impl=got, expected=want["ok"])
+                m = model[k]
+                if m is not None and not lib.is_unsupported(m) and not same_outcome(got, m):
+                    res.disagreement("codec format_datetime: model != implementation", {**case, "tzinfo": str(tzi)}, got, m)
+        for j, (t, want_us) in enumerate(texts):
+            k = len(insts) + j
+            case = {"kind": "parse_datetime", "text": t, "process_time_zone": zname}
+            res.count({"codec": "parse_datetime:tz", "in": t, "zone": zname})
+            res.bump("codec:tz:parse_datetime:" + ("ok" if "ok" in obs[k] else "error"))
+            if want_us is not None and obs[k] != {"ok": want_us}:
+                res.violation("timestamp codec: a UTC timestamp is not read as the instant it states", case, key="tz:parse_datetime", impl=obs[k], expected=want_us)
+            if obs[k] != utc_obs[k] and not ("error" in obs[k] and "error" in utc_obs[k]):
+                res.violation("timestamp codec: the value read depends on the time zone of the process", case, key="tz:parse-differs-from-utc", impl=obs[k], under_utc=utc_obs[k])
+            m = model[k]
+            if m is not None and not lib.is_unsupported(m) and not same_outcome(obs[k], m):
+                res.disagreement("codec parse_datetime: model != implementation", case, _clip(obs[k], 300), _clip(m, 300))
+
+
 # --------------------------------------------------------------------------------------
 # (f) boundary witnesses
 # --------------------------------------------------------------------------------------
@@ -1369,6 +1439,11 @@ def witnesses(res: Result, model_lines: list[dict[str, Any]], pending: list[Any]
 
 
 def run(tier: str, driver_ok: bool) -> Result:
+    with tzenv.zone(lib.TZ_ZONES[0]):  # whatever zone the check was started in: everything outside block (h) runs under UTC
+        return _run(tier, driver_ok)
+
+
+def _run(tier: str, driver_ok: bool) -> Result:
     res = Result("C11")
     res.rule = (
         "responses as data objects: n = 1..9 bundles x {real RSA signatures, arbitrary base64}; per bundle 1-2 ZSKs, 1-2 KSKs, optional revoked KSK (385), "
@@ -1377,6 +1452,9 @@ def run(tier: str, driver_ok: bool) -> Result:
         "RSA-SHA256/512 policies with 1..3 entries (0 as boundary witness); durations from the boundary list "
         f"{BOUNDARY_SECONDS} s + random whole seconds 0..400 d; ids from a dictionary (spaces, non-ASCII, '/', \"KSR\") and outside it (quotes, markup, control characters); "
         "datetimes with UTC and non-UTC tzinfo; every byte offset of four emitted files; codecs on >= 20 000 values incl. malformed strings; "
+        "environment independence: responses starting at every instant of the DST lattice of harness/tzenv.py (1..3 bundles, real / arbitrary signatures, four tzinfos) and a slice of the real / fake / shared-tag responses "
+        f"through (a)-(d) under the run's zone and with the PROCESS time zone switched to {', '.join(z[0] for z in lib.non_utc_zones())} (text equal to the UTC run's and the model's; counters tz:*), "
+        "timestamp codecs on the lattice (+-1 us, three tzinfos, forms +00:00 / Z / no designator, malformed strings) under every zone; "
         "non-trivial = distinct response / codec input"
     )
     r = lib.rng("C11")
@@ -1413,20 +1491,47 @@ def run(tier: str, driver_ok: bool) -> Result:
         d[i % 6] = s * SEC
         resp = base.replace(ksk_policy=mk_policy(r, 1, d), zsk_policy=mk_policy(r, 2, list(reversed(d))))
         add(f"durations:{s}", resp, False)
+    # (h) the DST lattice: ordinary entries here (the run's own zone), again under every other zone below
+    r4 = lib.rng("C11:tz")
+    tz_twins: list[int] = []
+    for k, (label, s) in enumerate(tzenv.lattice()):
+        tz = [timezone.utc, timezone(timedelta(hours=5, minutes=30)), timezone(timedelta(hours=-8)), timezone(timedelta(hours=2))][k % 4]
+        tz_twins.append(len(pending))
+        add(f"lattice:{label}", mk_response(r4, 1 + k % 3, real=(k % 3 == 0), start_us=s * SEC, tz=tz, pool=pool), k % 3 == 0)
+    for prefix in ("real:", "fake:", "shared-tag:real:", "shared-tag:fake:"):
+        tz_twins += [i for i, p in enumerate(pending) if p[0].startswith(prefix) and p[0].endswith(":0")][: 9 if big else 5]
     witnesses(res, lines, pending)
     n_resp = len(lines)
     lines += [{"op": "skr_tree", "response": ln["response"]} for ln in lines[:n_resp]]
     lines += [{"op": "writer_domain", "response": ln["response"]} for ln in lines[:n_resp]]
     model = run_driver(lines, exe=DRIVER) if driver_ok else [None] * len(lines)
+    utc_text: dict[int, Any] = {}
     for idx, (tag, resp, real, force_key) in enumerate(pending):
         m_text, m_tree = model[idx], model[n_resp + idx]
         m_dom = model[2 * n_resp + idx]
         if m_dom is not None and m_dom != in_domain(resp)[0]:
             res.disagreement("WriterDomain: the model's domain predicate != the harness's in_domain", {"tag": tag, **describe(resp)}, in_domain(resp), m_dom)
         w, back = judge_response(res, tag, resp, m_text, m_tree if isinstance(m_tree, dict) else None, real=real, sample=(idx in (0, 11)))
+        utc_text[idx] = w
         dom, why = in_domain(resp)
         if not dom:
             _note_witness(res, tag, resp, why, force_key, w, back)
+
+    # (h) the same responses with the time zone of the process switched: same model answers, same oracles, same text
+    for z in lib.non_utc_zones():
+        with tzenv.zone(z) as zname:
+            for idx in tz_twins:
+                tag, resp, real, _force = pending[idx]
+                m_tree = model[n_resp + idx]
+                res.bump(f"tz:zone:{zname}")
+                w, _back = judge_response(res, f"tz:{zname}:{tag}", resp, model[idx], m_tree if isinstance(m_tree, dict) else None, real=real, zone=zname)
+                if w != utc_text[idx]:
+                    res.violation(
+                        "emitted SKR depends on the time zone of the process (same response, written under UTC and under the zone)",
+                        {"tag": f"tz:{zname}:{tag}", "process_time_zone": zname, "n_bundles": len(resp.bundles), "real_signatures": real, **describe(resp)},
+                        key="tz:text-differs-from-utc",
+                        first_difference=_first_diff(utc_text[idx], w),
+                    )
 
     # (e) truncation: three files (every byte offset)
     r2 = lib.rng("C11:trunc")
@@ -1444,6 +1549,7 @@ def run(tier: str, driver_ok: bool) -> Result:
 
     # (g) codecs
     codecs(res, tier, driver_ok)
+    codecs_tz(res, tier, driver_ok)
     return res
 
 
@@ -1484,6 +1590,13 @@ def replay(obj: dict[str, Any]) -> Any:
 
     v = obj.get("violation") or obj.get("disagreement") or obj
     case = v.get("case", v)
+    zname = case.get("process_time_zone")
+    if zname and zname != "UTC" and not obj.get("_in_zone"):
+        with tzenv.zone({z[0]: z for z in lib.TZ_ZONES}[zname]):
+            out = replay({**obj, "_in_zone": True})
+        if isinstance(out, dict):
+            out["process_time_zone"] = zname
+        return out
     if "response" in case:
         resp = response_from_j(case["response"])
         impl = run_impl(lambda: skr_to_xml(resp), conv=lambda x: x)
